@@ -19,6 +19,7 @@ from gnpy.core.utils import dbm2watt
 from vf import attach, workload as W
 from vf.gen import common as G
 from vf.props import _prop_common as P
+from vf import stock
 
 ID = 'C07'
 RULE = ('generated spectra (uniform grids and arbitrary carrier lists with channels exactly on band edges, 1 Hz '
@@ -30,15 +31,17 @@ RULE = ('generated spectra (uniform grids and arbitrary carrier lists with chann
 ASSUMPTIONS = ['amplifier bands are read from the loaded equipment library (f_min, f_max per model)',
                'paths without any amplifier are not judged (the statement defines the filter by the amplifiers)',
                'order independence to 1e-12 relative on the receiver figures']
-REQUIRED_COUNTERS = {'launch_filter_checks': 40, 'element_identity_checks': 300, 'multiband_partition_checks': 20,
+REQUIRED_COUNTERS = {'stock_tests_run': 5, 'stock_element_identity_checks': 300, 'launch_filter_checks': 40, 'element_identity_checks': 300, 'multiband_partition_checks': 20,
                      'order_independence_checks': 15, 'invalid_spectrum_checks': 10, 'edge_channels': 20}
-CASE_TIMEOUT = {'quick': 120, 'thorough': 300}
+CASE_TIMEOUT = {'quick': 400, 'thorough': 1800}
 FLAVS = ['multiband', 'multiband_gen', 'narrow', 'mesh', 'multiband_gen', 'multiband', 'narrow', 'invalid']
 
 
 def plan(tier, seed):
     n = 900 if tier == 'quick' else 12000
-    return [{'idx': i, 'flavour': FLAVS[i % len(FLAVS)]} for i in range(n)]
+    cases = [{'idx': i, 'flavour': FLAVS[i % len(FLAVS)]} for i in range(n)]
+    # the repository's own tests as one more workload, with the monitors on (channel identity at every element)
+    return cases + stock.stock_cases(tier, n, ID)
 
 
 def build_narrow(rng):
@@ -237,6 +240,8 @@ def run_invalid(case, ctx):
 
 
 def run_case(case, ctx):
+    if case.get('kind') == 'stock':
+        return stock.run_stock_case(case, ctx, ID)
     rng = ctx.rng
     flav = case['flavour']
     if flav == 'invalid':
